@@ -381,15 +381,21 @@ async fn bucket_entries_async(bucket: &Path) -> std::io::Result<Vec<Serializable
     let mut lines =
         crate::async_lib::lines_to_stream(crate::async_lib::BufReader::new(file).lines());
     while let Some(line) = lines.next().await {
-        if let Ok(entry) = line {
-            let entry_str = match entry.split('\t').collect::<Vec<&str>>()[..] {
-                [hash, entry_str] if hash_entry(entry_str) == hash => entry_str,
-                // Something's wrong with the entry. Abort.
-                _ => continue,
-            };
-            if let Ok(serialized) = serde_json::from_str::<SerializableMetadata>(entry_str) {
-                vec.push(serialized);
-            }
+        let entry = match line {
+            Ok(entry) => entry,
+            // A line that is not valid UTF-8 only invalidates itself.
+            Err(e) if e.kind() == ErrorKind::InvalidData => continue,
+            // A real I/O error comes back on every poll: stop reading, as
+            // the sync reader does.
+            Err(_) => break,
+        };
+        let entry_str = match entry.split('\t').collect::<Vec<&str>>()[..] {
+            [hash, entry_str] if hash_entry(entry_str) == hash => entry_str,
+            // Something's wrong with the entry. Abort.
+            _ => continue,
+        };
+        if let Ok(serialized) = serde_json::from_str::<SerializableMetadata>(entry_str) {
+            vec.push(serialized);
         }
     }
     Ok(vec)
